@@ -22,14 +22,16 @@ VARIABLES
 
 Kinds == {"Point", "Matrix", "Color", "Length", "Move", "Line", "Close", "QuadraticBezier",
           "CubicBezier", "Arc", "Path", "PathT", "Subpath", "Rect", "RRect", "Circle", "Ellipse",
-          "SimpleLine", "Polyline", "Polygon", "Group", "GroupNested", "GroupMixed", "Text", "Image"}
+          "SimpleLine", "Polyline", "Polygon", "Group", "GroupNested", "GroupMixed", "Text", "Image",
+          "RectLen", "CircleLen"}       \* shapes whose position is still an unrendered Length (e.g. x="10%")
 Segments == {"Move", "Line", "Close", "QuadraticBezier", "CubicBezier", "Arc"}
 Shapes   == {"Path", "PathT", "Rect", "RRect", "Circle", "Ellipse", "SimpleLine", "Polyline", "Polygon"}
+LenShapes == {"RectLen", "CircleLen"}      \* cannot be decomposed before they are rendered: only copy and * apply
 Groups   == {"Group", "GroupNested", "GroupMixed"}
 AllOps   == {"copy", "mul", "abs", "topath", "inv", "matmul", "add"}
 OpsOf(k) ==
   {"copy"} \cup
-  (IF k \in Segments \cup Shapes \cup Groups \cup {"Point", "Matrix", "Text", "Image", "Subpath"} THEN {"mul"} ELSE {}) \cup
+  (IF k \in Segments \cup Shapes \cup LenShapes \cup Groups \cup {"Point", "Matrix", "Text", "Image", "Subpath"} THEN {"mul"} ELSE {}) \cup
   (IF k \in Shapes \cup {"Text", "Image"} THEN {"abs"} ELSE {}) \cup
   (IF k \in Shapes \cup {"Subpath"} THEN {"topath"} ELSE {}) \cup
   (IF k = "Matrix" THEN {"inv", "matmul"} ELSE {}) \cup
@@ -51,7 +53,7 @@ MutsOf(k) ==
   ELSE IF k \in {"Path", "PathT"} THEN {"setpt", "imul", "reify", "paint", "setfill", "sw", "tredit", "values", "append",
                                         "delete", "setitem", "setid", "reverse", "iadd_str"}
   ELSE IF k = "Subpath" THEN {"setpt", "imul", "reverse"}
-  ELSE IF k \in {"Rect", "RRect", "Circle", "Ellipse", "SimpleLine"} THEN
+  ELSE IF k \in {"Rect", "RRect", "Circle", "Ellipse", "SimpleLine", "RectLen", "CircleLen"} THEN
                        {"setgeom", "imul", "reify", "paint", "setfill", "sw", "tredit", "values", "setid"}
   ELSE IF k \in {"Polyline", "Polygon"} THEN {"setpt", "ptappend", "imul", "reify", "paint", "sw", "tredit", "values"}
   ELSE IF k \in Groups THEN {"imul", "reify", "values", "append", "delete", "childedit", "childtredit", "setid"}
